@@ -361,14 +361,26 @@ def carriers(ctx, prog):
                 okn = a2.get("vname") == "Some" and lib.originates_from_arg(cnew, a2["ops"][0], 1)
     ctx.check(okn, "C04.b", "SystemCommandCleanup::new:stores-Some(cleanup)", "%s:%d" % (cnew.file, cnew.line), "", "SystemCommandCleanup::new does not store Some(<its argument>)")
     # Setup::run
+    # the carrier's two private fields by type: the stored hook (a fn pointer) and the stored system id
+    F_SETUP, F_REACTOR = "setup", "reactor"
+    try:
+        _sa = prog.adt_by_name("SystemCommandSetup")
+        _fn = [f_["name"] for f_ in _sa["variants"][0]["fields"] if re.match(r"^(for<.*> )?fn\(", f_["ty"])]
+        _id = [f_["name"] for f_ in _sa["variants"][0]["fields"] if f_["ty"].endswith("::SystemCommand")]
+        if len(_fn) == 1:
+            F_SETUP = _fn[0]
+        if len(_id) == 1:
+            F_REACTOR = _id[0]
+    except (mir.AnchorLost, KeyError, IndexError):
+        pass
     isr = indirect_calls(srun)
     oks = len(isr) == 1
     if oks:
         b, t, os_ = isr[0]
         cnt, _, _ = lib.event_counts(srun, [b])
-        oks = cnt == {1} and all(o[0] == "arg" and o[1] == 1 and o[-1] == ".setup" for o in os_) and len(t["args"]) == 2 \
-            and all(o[0] == "arg" and o[1] == 1 and o[-1] == ".reactor" for o in origins(srun, t["args"][1]))
-        if not oks and cnt == {1} and all(o[0] == "arg" and o[1] == 1 and o[-1] == ".setup" for o in os_) and len(t["args"]) == 2:
+        oks = cnt == {1} and all(o[0] == "arg" and o[1] == 1 and o[-1] == "." + F_SETUP for o in os_) and len(t["args"]) == 2 \
+            and all(o[0] == "arg" and o[1] == 1 and o[-1] == "." + F_REACTOR for o in origins(srun, t["args"][1]))
+        if not oks and cnt == {1} and all(o[0] == "arg" and o[1] == 1 and o[-1] == "." + F_SETUP for o in os_) and len(t["args"]) == 2:
             # the reactor id is not stored in the carrier but handed to run() by its caller: then every caller passes the id of
             # the command it is running / aborting (the runner its own command, the abort helper the command it was given,
             # which the runner takes from its own parameter or from the buffered entry it discards)
@@ -399,7 +411,7 @@ def carriers(ctx, prog):
               "(self.setup)(world, self.reactor) exactly once", "SystemCommandSetup::run does not call its stored setup exactly once with its own reactor")
     agg = [st["rv"]["agg"] for b, i, st in snew.iter_stmts() if st["k"] == "assign" and "agg" in st["rv"] and st["rv"]["agg"].get("adt", "").endswith("::SystemCommandSetup")]
     okn = False
-    if len(agg) == 1 and "setup" in agg[0].get("fields", []):
+    if len(agg) == 1 and F_SETUP in agg[0].get("fields", []):
         fs_ = agg[0]["fields"]
         # every stored field comes from a distinct constructor argument (`{reactor, setup}` or just `{setup}`)
         srcs_ = []
